@@ -257,7 +257,7 @@ def run_verus_unit(u, workdir, tier, do_canaries=True):
         res['undecided'].append('no ledger for unit %s (run ./check ledger --write)' % unit)
         res['status'] = 'undecided' if res['status'] == 'pass' else res['status']
     else:
-        missing = [n for n in led['obligations'] if n not in cur_names]
+        missing = [n for n in led['obligations'] if n not in cur_names and n not in meta.get('moot', [])]
         if missing:
             res['undecided'].append('ledger obligations no longer generated: %s' % ', '.join(missing[:5]))
             res['status'] = 'undecided'
